@@ -338,6 +338,31 @@ def zones_for(tier, rng, synthetic=True):
     return zs
 
 
+def reject_zones():
+    """Files the loader must REJECT (each is one validation away from being accepted): a change that drops or weakens
+    that validation makes the library load a zone on which queries are undefined or history-dependent.  Used by the
+    checks of properties that quantify over well-formed zones (C10, C14) as well as by C12."""
+    ty = [(0, 0, 0), (7200, 1, 4), (3600, 0, 8)]
+    abbr = b"AAA\0BBB\0CCC\0"
+    T = 1000000000
+    out = [
+        # first transition exactly INT64_MIN (a two-sided range check rewritten with abs() lets it through)
+        ("rej_min_first", tzif.write_tzif(b"2", [I64_MIN, 0], [1, 2], ty, abbr, b"", v1_block=False)),
+        ("rej_min_first1", tzif.write_tzif(b"2", [I64_MIN], [1], ty, abbr, b"", v1_block=False)),
+        ("rej_below_bigbang", tzif.write_tzif(b"2", [BIG_BANG - 1, 0], [1, 2], ty, abbr, b"", v1_block=False)),
+        ("rej_above_2_59", tzif.write_tzif(b"2", [0, (1 << 59) + 1], [1, 2], ty, abbr, b"", v1_block=False)),
+        # 'crossing' transitions: the clock is set back by more than the time elapsed since the previous change, so the
+        # table is not ordered by civil time (the hint test and the bisection of MakeTime may then pick different slots)
+        ("rej_cross1", tzif.write_tzif(b"2", [T, T + 1800, T + 10000000], [1, 0, 2], ty, abbr, b"", v1_block=False)),
+        ("rej_cross2", tzif.write_tzif(b"2", [T, T + 600, T + 1200, T + 20000000], [1, 0, 1, 0], ty, abbr, b"", v1_block=False)),
+        ("rej_cross3", tzif.write_tzif(b"2", [-T, -T + 3599, 0, T], [1, 0, 2, 0], ty, abbr, b"CCC-1", v1_block=False)),
+        # equal and decreasing times
+        ("rej_equal_times", tzif.write_tzif(b"2", [T, T], [1, 2], ty, abbr, b"", v1_block=False)),
+        ("rej_decreasing", tzif.write_tzif(b"2", [T, T - 1], [1, 2], ty, abbr, b"", v1_block=False)),
+    ]
+    return out
+
+
 def gen_c01(tier, rng):
     zones = zones_for(tier, rng)
     cases = []
@@ -425,6 +450,16 @@ def gen_c11(tier, rng):
         for t in sorted(set(inst)):
             cases.append("nt %s %d" % (zid, t))
             cases.append("pt %s %d" % (zid, t))
+        # the templates for time_points finer than seconds (milliseconds): just before / at / just after each probe,
+        # both sides of the epoch ("strictly after t" floors, "strictly before t" must round UP - finding F17)
+        ms_inst = sorted(set(inst))
+        if tier == "quick" and len(ms_inst) > 24:
+            ms_inst = ms_inst[:8] + rng.sample(ms_inst, 8) + ms_inst[-8:]
+        for t in ms_inst:
+            if abs(t) < (1 << 52):
+                for d in (-1, 0, 1, 500, -500, 999, -999):
+                    cases.append("ntm %s %d" % (zid, t * 1000 + d))
+                    cases.append("ptm %s %d" % (zid, t * 1000 + d))
         cases.append("chain %s" % zid)
     return cases, zones
 
@@ -495,7 +530,17 @@ def gen_c10(tier, rng):
             if I64_MIN <= cs[0] <= I64_MAX:
                 cases.append("mt %s %s" % (zid, fmt_cs(cs)))
                 cases.append("cv %s %s" % (zid, fmt_cs(cs)))
-    return cases, zones
+    # files the loader must reject: if a change lets one load, its queries are where the undefined behaviour shows
+    rz = reject_zones() + [z for z in handcrafted_c12() if z[0].startswith(("hc_f5", "hc_f8", "hc_f3", "hc_tie"))]
+    for zid, _ in rz:
+        cases.append("zload %s" % zid)
+        for t in (I64_MIN, -(1 << 62), -1, 0, 1, 1000000900, 1000002000, 1 << 40, 1 << 62, I64_MAX):
+            cases.append("bt %s %d" % (zid, t))
+            cases.append("nt %s %d" % (zid, t))
+            cases.append("pt %s %d" % (zid, t))
+        for cs in ((1970, 1, 1, 0, 0, 0), (2001, 9, 9, 2, 0, 0), (2001, 9, 9, 3, 50, 0), (I64_MAX, 12, 31, 23, 59, 59), (I64_MIN, 1, 1, 0, 0, 0)):
+            cases.append("mt %s %s" % (zid, fmt_cs(cs)))
+    return cases, zones + rz
 
 
 # ---------------------------------------------------------------------------
@@ -726,6 +771,9 @@ def gen_c14(tier, rng):
     zones = zones_for(tier, rng)
     if tier == "quick":
         zones = zones[:40] + zones[-12:]
+    # files with transitions that are not ordered by civil time: the loader rejects them (then every copy answers
+    # "noload"); a change that lets them load makes MakeTime's hint test and bisection disagree - history dependence
+    zones = zones + [z for z in reject_zones() if "cross" in z[0]]
     cases = []
     key = 0
     for zid, data in zones:
